@@ -421,6 +421,26 @@ def r12_8(ctx):
                 r.ok({"B edge": b.where(sb), "then": "clear before append"})
             else:
                 r.violate(PDP, "B:no-clear", b.where(sb), "a B fragment can be appended without the buffer having been cleared: leftovers of an unfinished message are merged into the next one")
+    # a fragment that is not a B fragment is appended only to a message in progress (non-empty buffer): the tail of a
+    # message whose head was skipped by FORWARD-TSN must not start a message of its own
+    def nonempty(term, meaning, *_):
+        t, neg = term, False
+        if t[0] == "un" and t[1] == "Not":
+            t, neg = t[2], True
+        return t[0] == "call" and t[1].endswith("::is_empty") and mir.has_field(t, "reassembly_buffer") and \
+            isinstance(meaning, bool) and (meaning is neg)
+    gN = core.guard_edges(b, nonempty)
+    notB = [(sb, tgt) for sb in range(len(b.blocks)) if b.blocks[sb]["t"]["k"] == "switch"
+            for tgt, _, m in b.switch_info(sb)[1] if (sb, tgt) not in gB and _flag_edge(0x02, False)(b.switch_info(sb)[0], m)]
+    for (sb, tgt) in notB:
+        for ab in appends:
+            p_ = b.path_to([tgt], ab, cut_edges=set(gN))
+            if p_ is None:
+                r.ok({"non-B edge": b.where(sb), "append": "only when a message is in progress (buffer not empty)"})
+            else:
+                r.violate(PDP, "append:without-B", b.where(ab),
+                          "a middle/end fragment is appended although no message is in progress: the tail of a message whose B fragment "
+                          "was skipped (FORWARD-TSN) is delivered as a message of its own", core.describe_path(b, p_))
     for bi in takes:
         if core.k1(b, [bi], gE)[bi] is None and appends and core.must_pass(b, bi, appends):
             r.ok({"site": b.where(bi), "take": "only on the E edge, after the append"})
